@@ -62,7 +62,7 @@ def run(ctx):
     ctx.stage("negative-control", cfg="UdpConc_MC_NoGuard.cfg", error=neg["error"])
     # 2. schedules from the model
     g1 = run_tlc(ctx, "UdpConc_Gen", "UdpConc_Gen.cfg", workers=1, timeout=900, name="gen_bfs")
-    nsim = 300 if quick else 3000
+    nsim = 300 if quick else 1500
     g2 = run_tlc(ctx, "UdpConc_Gen", "UdpConc_Sim.cfg", workers=1, timeout=900, name="gen_sim",
                  extra=["-simulate", "num=%d" % nsim, "-depth", "60", "-seed", str(ctx.seed)])
     scheds = []
@@ -83,9 +83,9 @@ def run(ctx):
     rnd.shuffle(plist)
     nprog = 12 if quick else len(plist)
     for j, p in enumerate(plist[:nprog]):
-        jobs.append({"run": 100000 + 3 * j, "program": p, "strategy": {"kind": "dfs", "max_runs": 60 if quick else 600}})
-        jobs.append({"run": 100001 + 3 * j, "program": p, "strategy": {"kind": "random", "runs": 60 if quick else 600}})
-        jobs.append({"run": 100002 + 3 * j, "program": p, "strategy": {"kind": "free", "runs": 40 if quick else 400}})
+        jobs.append({"run": 100000 + 3 * j, "program": p, "strategy": {"kind": "dfs", "max_runs": 60 if quick else 150}})
+        jobs.append({"run": 100001 + 3 * j, "program": p, "strategy": {"kind": "random", "runs": 60 if quick else 150}})
+        jobs.append({"run": 100002 + 3 * j, "program": p, "strategy": {"kind": "free", "runs": 40 if quick else 100}})
     cargo_build(ctx)
     jpath = ctx.path("jobs.jsonl")
     tpath = ctx.path("sched_trace.ndjson")
